@@ -316,6 +316,8 @@ def enum_roundtrip(tier):
 
 def run_text(case):
     if 'corpus' in case:                    # an atheris campaign (thorough tier)
+        if os.environ.get('VERIF_OPT_PASS') == 'child':
+            return Outcome(labels=['campaign-not-repeated-under-python-O'], nontrivial=False)
         return run_fuzz(case)
     fmt, gtype, text = case['fmt'], case['gtype'], case['text']
     if R.too_big(text):
